@@ -15,6 +15,7 @@ pub mod c05;
 pub mod c06;
 pub mod c07;
 pub mod c08;
+pub mod c09;
 pub mod c10;
 pub mod c11;
 pub mod c12;
@@ -32,6 +33,7 @@ pub fn units(prop: &str, tier: Tier, seed: u64) -> Option<(Vec<Unit>, Meta)> {
         "C06" => (c06::units(tier, seed), c06::meta()),
         "C07" => (c07::units(tier, seed), c07::meta()),
         "C08" => (c08::units(tier, seed), c08::meta()),
+        "C09" => (c09::units(tier, seed), c09::meta()),
         "C10" => (c10::units(tier, seed), c10::meta()),
         "C11" => (c11::units(tier, seed), c11::meta()),
         "C12" => (c12::units(tier, seed), c12::meta()),
